@@ -380,6 +380,7 @@ type ruleData struct {
 	action action
 
 	allSyscalls bool
+	explicitAll bool // explicitAll is set once -S all was given; later syscalls cannot narrow it.
 	syscalls    []uint32
 
 	fields     []field
@@ -541,9 +542,12 @@ func (r *ruleData) getAction() (string, error) {
 func addSyscall(rule *ruleData, syscall string) error {
 	if syscall == "all" {
 		rule.allSyscalls = true
+		rule.explicitAll = true
 		return nil
 	}
-	rule.allSyscalls = false
+	if !rule.explicitAll {
+		rule.allSyscalls = false
+	}
 
 	syscallNum, err := strconv.Atoi(syscall)
 	if err != nil {
